@@ -109,7 +109,7 @@ PROPS = {
     ),
     "C13": dict(
         modules=["JPV.Props.C13", "JPV.Props.C09"],
-        theorems=["JPV.Props.C13_lex", "JPV.Props.C13_token_shapes", "JPV.Props.C13_eval_partial", "JPV.Props.C13_str_total",
+        theorems=["JPV.Props.C13_compile", "JPV.Props.C13_lex", "JPV.Props.C13_token_shapes", "JPV.Props.C13_eval_partial", "JPV.Props.C13_str_total",
                   "JPV.Props.C09_no_index_error", "JPV.Props.C05_partial"],
         tables=[T + "exceptions_model", T + "regexes_model", T + "escapes_model", T + "token_map_model"],
         explore=ct.explore_c13,
